@@ -129,11 +129,11 @@ CHECKS = {
    ref='DESIGN.md section 4 C07'),
  'C17': dict(
    text='Theorems (Coq, reals): the commitment term enters the loss only under the regenerated training guard (zero in evaluation mode); mse is non-negative, symmetric, zero iff equal; SimVQ loss = commitment_weight (1 + w) mse; '
-        'clamped entropy of a distribution: non-negative, at most ln K (Gibbs, unclamped region), 0 for a one-hot and ln K for the uniform distribution; finite Jensen for the entropy term -t ln t (any number of points) and hence mean per-token entropy <= entropy of the mean distribution for ANY number of tokens (entries >= eps); '
+        'clamped entropy of a distribution: non-negative, at most ln K (Gibbs, unclamped region), 0 for a one-hot and ln K for the uniform distribution; finite Jensen for the entropy term -t ln t (any number of points); the FULL chain 0 <= mean per-token entropy <= entropy of the mean distribution <= ln K for ANY number of tokens and ANY distributions, clamped region and exact zeros included (t -> -t ln max(t,eps) is a minimum of a linear and a concave function; supporting-line Jensen); '
         'orthogonality penalty of n identical unit codes = 1 - 1/n. '
         'Tie: commitment guard and the whole loss assembly (VectorQuantize, SimVQ, LFQ, LatentQuantize) regenerated and pinned; reported losses and breakdown tuples compared with the documented formulas recomputed independently (float64) from inputs, selected codes, codebook, weights, temperatures and (per-sample) masks; '
         'mse terms evaluated in Coq over Q, small LFQ entropy cases certified by the interval tactic, entropy inequalities checked on every LFQ call, every term zero in evaluation mode.',
-   note='PARTIAL only in the clamped region: the entropy chain is proved for distributions whose entries are >= eps (any number of tokens); the statement for entries below the clamp is kept (C17_entropy_chain_full_statement, not asserted). Known finding: SimVQ / ResidualSimVQ report a non-zero loss in eval().',
+   note='The entropy chain is proved in full (C17_entropy_chain_full). Known finding: SimVQ / ResidualSimVQ report a non-zero loss in eval().',
    technique='Coq proof (reals: Gibbs inequality, concavity) + regenerated guard / pinned loss assembly + independent recomputation with Coq (Q) and interval-certified cases',
    ref='DESIGN.md section 4 C17'),
  'C18': dict(
